@@ -108,6 +108,7 @@ package factory
 //@ ensures [failure-surfaces] implies(result1 == nil, Failed == old(Failed))
 //@ ensures [lifecycle-complete] implies(result1 == nil, St[name] == 6 || ShortCircuit[name])
 //@ ensures [stack-kept] StackKept(Reg(f), name)
+//@ ensures [inj-trace-kept] InjKept(Reg(f), name)
 //@ ghost before call GetMetaByName: f.singletonComponentRegistry.Creates = store(f.singletonComponentRegistry.Creates, name, f.singletonComponentRegistry.Creates[name] + 1)
 //@ ghost before call GetMetaByName: St = store(St, name, 0)
 //@ ghost before call GetMetaByName: ShortCircuit = store(ShortCircuit, name, false)
@@ -131,6 +132,7 @@ package factory
 //@ ensures [hole-only-own] implies(Reg(f).HasHole, Reg(f).Hole == name)
 //@ ensures [counts-creation] Reg(f).Creates[name] == old(Reg(f).Creates[name]) + 1
 //@ ensures [stack-kept] StackKept(Reg(f), name)
+//@ ensures [inj-trace-kept] InjKept(Reg(f), name)
 //@ ensures [failure-surfaces] implies(result1 == nil, Failed == old(Failed))
 
 //@ func (*defaultFactory).doGetComponent
@@ -154,6 +156,7 @@ package factory
 //@ ensures [marks-untouched] Reg(f).IC == old(Reg(f).IC)
 //@ ensures [published-or-on-stack] implies(result1 == nil, Reg(f).L1Dom[name] || Reg(f).IC[name])
 //@ ensures [stack-kept] StackKeptAll(Reg(f))
+//@ ensures [inj-trace-kept] InjKeptAll(Reg(f))
 //@ ensures [failure-surfaces] implies(result1 == nil, Failed == old(Failed))
 
 //@ func (*defaultFactory).GetComponentByName
@@ -197,7 +200,7 @@ package factory
 //@ requires [processors-non-nil] ProcsOK(f)
 //@ requires [meta-built] MetaOK(meta)
 //@ assigns CreationFrame()
-//@ ensures [lifecycle-untouched] St == old(St) && BeforeLen == old(BeforeLen) && AfterLen == old(AfterLen) && ApsCalls == old(ApsCalls) && InitCalls == old(InitCalls) && ShortCircuit == old(ShortCircuit) && Wrapped == old(Wrapped) && RTop >= old(RTop)
+//@ ensures [lifecycle-untouched] St == old(St) && BeforeLen == old(BeforeLen) && AfterLen == old(AfterLen) && ApsCalls == old(ApsCalls) && InitCalls == old(InitCalls) && ShortCircuit == old(ShortCircuit) && Wrapped == old(Wrapped) && InjVisited == old(InjVisited) && InjNeeded == old(InjNeeded) && InjDone == old(InjDone) && RTop >= old(RTop)
 //@ ensures [failure-surfaces] implies(result == nil, Failed == old(Failed))
 //@ let p0 = PropsLen[name]
 //@ ensures [properties-stage-in-list-order] PropsLen[name] >= p0 && forall(k, int, implies(p0 <= k && k < PropsLen[name], 0 <= PropsPos[name][k] && PropsPos[name][k] < len(f.componentPostProcessors) && toany(PropsAt[name][k]) == toany(f.componentPostProcessors[PropsPos[name][k]])), PropsPos[name][k]) && forall(a, int, forall(b, int, implies(p0 <= a && a < b && b < PropsLen[name], PropsPos[name][a] < PropsPos[name][b])))
@@ -209,7 +212,7 @@ package factory
 // opting out does not end the stage for the processors after it
 //@ ensures [every-willing-processor-populates] implies(result == nil, forall(i, int, implies(0 <= i && i < len(f.componentPostProcessors) && implements(f.componentPostProcessors[i], container.InstantiationAwareComponentPostProcessor) && AiAnswer[name][i], p0 <= PropsOfPos[name][i] && PropsOfPos[name][i] < PropsLen[name] && PropsPos[name][PropsOfPos[name][i]] == i), PropsOfPos[name][i]))
 //@ loop 1 invariant [willing-so-far] forall(i, int, implies(0 <= i && i < _done && implements(f.componentPostProcessors[i], container.InstantiationAwareComponentPostProcessor) && AiAnswer[name][i], p0 <= PropsOfPos[name][i] && PropsOfPos[name][i] < PropsLen[name] && PropsPos[name][PropsOfPos[name][i]] == i), PropsOfPos[name][i])
-//@ loop 1 invariant [lifecycle-untouched] St == old(St) && BeforeLen == old(BeforeLen) && AfterLen == old(AfterLen) && ApsCalls == old(ApsCalls) && InitCalls == old(InitCalls) && ShortCircuit == old(ShortCircuit) && Wrapped == old(Wrapped) && RTop >= old(RTop)
+//@ loop 1 invariant [lifecycle-untouched] St == old(St) && BeforeLen == old(BeforeLen) && AfterLen == old(AfterLen) && ApsCalls == old(ApsCalls) && InitCalls == old(InitCalls) && ShortCircuit == old(ShortCircuit) && Wrapped == old(Wrapped) && InjVisited == old(InjVisited) && InjNeeded == old(InjNeeded) && InjDone == old(InjDone) && RTop >= old(RTop)
 //@ loop 1 invariant [no-failure-so-far] Failed == old(Failed)
 //@ loop 1 invariant [trace-so-far] PropsLen[name] >= p0 && forall(k, int, implies(p0 <= k && k < PropsLen[name], 0 <= PropsPos[name][k] && PropsPos[name][k] < _done && toany(PropsAt[name][k]) == toany(f.componentPostProcessors[PropsPos[name][k]])), PropsPos[name][k]) && forall(a, int, forall(b, int, implies(p0 <= a && a < b && b < PropsLen[name], PropsPos[name][a] < PropsPos[name][b])))
 
@@ -267,6 +270,7 @@ package factory
 //@ ensures [early-reference-built] implies(result1 == nil, MetaOK(result0))
 //@ ensures [caches-untouched] CachesUnchanged(Reg(f)) && Reg(f).Creates == old(Reg(f).Creates) && Reg(f).HasHole == old(Reg(f).HasHole) && Reg(f).Hole == old(Reg(f).Hole)
 //@ ensures [stack-kept] StackKeptAll(Reg(f))
+//@ ensures [inj-trace-kept] InjKeptAll(Reg(f))
 //@ ensures [failure-surfaces] implies(result1 == nil, Failed == old(Failed))
 //@ ensures [counts-early-run] Reg(f).EarlyRuns == store(old(Reg(f).EarlyRuns), name, old(Reg(f).EarlyRuns[name]) + 1)
 //@ ghost before call getEarlyBeanReference: f.singletonComponentRegistry.EarlyRuns = store(f.singletonComponentRegistry.EarlyRuns, name, f.singletonComponentRegistry.EarlyRuns[name] + 1)
@@ -284,12 +288,30 @@ package factory
 //@ ensures [marks-untouched] Reg(f).IC == old(Reg(f).IC)
 //@ ensures [own-lifecycle-untouched] St[name] == 0 && ShortCircuit[name] == old(ShortCircuit[name])
 //@ ensures [stack-kept] StackKeptAll(Reg(f))
+//@ ensures [inj-trace-kept] InjKept(Reg(f), name)
 //@ ensures [failure-surfaces] implies(result == nil, Failed == old(Failed))
 // Stage-B composition, assumed here: after the properties stage every component property of this Meta is narrowed and
 // well-formed (C08 [injects-nil-free], C11 field scan), nested creations of OTHER components leave this Meta's
 // properties alone, and a substituted (proxied) dependency stays assignable wherever the original was (A-CALLBACK).
 //@ loop 1 free-invariant [own-properties-stay-wellformed] forall(k, int, implies(0 <= k && k < len(PropsOf(meta, component_definition.PropertyTypeComponent)), PropOK(PropsOf(meta, component_definition.PropertyTypeComponent)[k])))
 //@ assume before call Inject: [substitutes-stay-assignable] forall(k, int, implies(0 <= k && k < len(injects) && !IsSelfOf(node, injects[k]), RAssignable(RTypeOf(injects[k].Value), TargetType(node))))
+// completeness of population: every component property of the Meta is looked at, and every one that has candidates
+// at that moment is handed to Property.Inject (no point is skipped, the loop does not stop early)
+// (len #4 is the call len(dependencies): calls are numbered by source position, the two position-less len calls that the
+// compiler emits for the range loops come first, then len(properties))
+//@ ghost before call len #4: InjVisited = store(InjVisited, name, store(InjVisited[name], _idx, true))
+//@ ghost before call len #4: InjNeeded = store(InjNeeded, name, store(InjNeeded[name], _idx, len(node.Injects) != 0))
+//@ ghost local visitedSnap map[int]bool
+//@ ghost local neededSnap map[int]bool
+//@ ghost local doneSnap map[int]bool
+//@ ghost before call len #4: visitedSnap = InjVisited[name]
+//@ ghost before call len #4: neededSnap = InjNeeded[name]
+//@ ghost before call len #4: doneSnap = InjDone[name]
+//@ ghost after call Inject: InjDone = store(InjDone, name, store(InjDone[name], _idx, true))
+//@ loop 2 invariant [own-trace-stable] InjVisited[name] == visitedSnap && InjNeeded[name] == neededSnap && InjDone[name] == doneSnap && InjKept(Reg(f), name)
+//@ ensures [every-point-populated] implies(result == nil, forall(k, int, implies(0 <= k && k < len(PropsOf(meta, component_definition.PropertyTypeComponent)), InjVisited[name][k] && implies(InjNeeded[name][k], InjDone[name][k])), InjVisited[name][k]))
+//@ loop 1 invariant [other-traces-kept] InjKept(Reg(f), name)
+//@ loop 1 invariant [points-handled-so-far] forall(k, int, implies(0 <= k && k < _done, InjVisited[name][k] && implies(InjNeeded[name][k], InjDone[name][k])), InjVisited[name][k])
 //@ loop 1 invariant [outer] FInv(f) && !Reg(f).HasHole && RegRely(Reg(f)) && Reg(f).IC == old(Reg(f).IC) && St[name] == 0 && ShortCircuit[name] == old(ShortCircuit[name]) && Failed == old(Failed) && StackKeptAll(Reg(f))
 //@ loop 2 invariant [inner] FInv(f) && !Reg(f).HasHole && RegRely(Reg(f)) && Reg(f).IC == old(Reg(f).IC) && St[name] == 0 && ShortCircuit[name] == old(ShortCircuit[name]) && Failed == old(Failed) && StackKeptAll(Reg(f))
 //@ loop 2 invariant [injects-are-lookups] len(injects) == _done && forall(i, int, implies(0 <= i && i < _done, injects[i] != nil && injects[i] == Cur(Reg(f), dependencies[i].Name())), injects[i])
@@ -313,6 +335,7 @@ package factory
 //@ ensures [rely] RegRely(Reg(f))
 //@ ensures [marks-untouched] Reg(f).IC == old(Reg(f).IC)
 //@ ensures [stack-kept] StackKept(Reg(f), name)
+//@ ensures [inj-trace-kept] InjKept(Reg(f), name)
 //@ ensures [returns-built-meta] implies(result1 == nil, MetaOK(result0))
 //@ ensures [error-means-nil] implies(result1 != nil, result0 == nil)
 //@ ensures [lifecycle-complete] implies(result1 == nil, St[name] == 6)
@@ -480,13 +503,27 @@ package factory
 // PrepareComponents: every registered singleton is recorded, classified by the three processor interfaces, the factory
 // post-processors are wired, definitions scanned and component post-processors ordered (InvokeBeanFactoryPostProcessors).
 // It refines the phase contract of (Factory).PrepareComponents: a failure surfaces, no runner runs, nothing is refreshed.
+// Which registered singleton plays which role (C09, C11, C12: no participant is lost): the k-th registered singleton
+// (PrepAt[k]) is put on the list of every role it implements - a singleton may have several roles -, at the recorded
+// position (PrepDrp / PrepRaw / PrepFpp), and is remembered under its name.
+//@ ghost var PrepAt map[int]any
+//@ ghost var PrepDrp map[int]int
+//@ ghost var PrepRaw map[int]int
+//@ ghost var PrepFpp map[int]int
 //@ func (*defaultFactory).PrepareComponents
 //@ property C09 C13 C18 C05
 //@ implements container.Factory
 //@ requires [wired] f != nil && f.singletonRegistry != nil && f.postProcessorRegistrationDelegate != nil && RawOK(f.postProcessorRegistrationDelegate) && ProcsOK(f.postProcessorRegistrationDelegate)
 //@ requires [no-live-threads] Joined <= Forks && forall(k, int, implies(k >= Forks, !ScanRecorded[k] && !ScanFailed[k]))
-//@ assigns f.registeredComponents, f.definitionRegistryPostProcessors, any(f.postProcessorRegistrationDelegate.hasInstantiationAwareComponentPostProcessor), any(f.postProcessorRegistrationDelegate.hasDestructionAwareComponentPostProcessor), any(f.postProcessorRegistrationDelegate.rawComponentPostProcessors), any(f.postProcessorRegistrationDelegate.componentPostProcessors), SortedProcs, ProcessorWiring(), Failed, ScanPhaseFrame(), AnyRegFrame(), CreationFrame()
+//@ assigns f.registeredComponents, f.definitionRegistryPostProcessors, any(f.postProcessorRegistrationDelegate.hasInstantiationAwareComponentPostProcessor), any(f.postProcessorRegistrationDelegate.hasDestructionAwareComponentPostProcessor), any(f.postProcessorRegistrationDelegate.rawComponentPostProcessors), any(f.postProcessorRegistrationDelegate.componentPostProcessors), PrepAt, PrepDrp, PrepRaw, PrepFpp, SortedProcs, ProcessorWiring(), Failed, ScanPhaseFrame(), AnyRegFrame(), CreationFrame()
 //@ ensures [processors-ready] implies(result == nil, ProcsOK(f.postProcessorRegistrationDelegate))
+//@ ghost after call GetSingleton$: PrepAt = store(PrepAt, _idx, _result0)
+//@ ghost before call append #1: PrepDrp = store(PrepDrp, _idx, len(f.definitionRegistryPostProcessors))
+//@ ghost before call append #2: PrepFpp = store(PrepFpp, _idx, len(factoryPostProcessors))
+//@ ghost before call registerBeanPostProcessors: PrepRaw = store(PrepRaw, _idx, len(f.postProcessorRegistrationDelegate.rawComponentPostProcessors))
+//@ loop 1 invariant [definition-processors-collected] forall(k, int, implies(0 <= k && k < _done && implements(PrepAt[k], container.DefinitionRegistryPostProcessor), 0 <= PrepDrp[k] && PrepDrp[k] < len(f.definitionRegistryPostProcessors) && toany(f.definitionRegistryPostProcessors[PrepDrp[k]]) == PrepAt[k]), PrepDrp[k])
+//@ loop 1 invariant [component-processors-registered] forall(k, int, implies(0 <= k && k < _done && implements(PrepAt[k], container.ComponentPostProcessor), 0 <= PrepRaw[k] && PrepRaw[k] < len(f.postProcessorRegistrationDelegate.rawComponentPostProcessors) && toany(f.postProcessorRegistrationDelegate.rawComponentPostProcessors[PrepRaw[k]]) == PrepAt[k]), PrepRaw[k])
+//@ loop 1 invariant [factory-processors-collected] forall(k, int, implies(0 <= k && k < _done && implements(PrepAt[k], container.ComponentFactoryPostProcessor), 0 <= PrepFpp[k] && PrepFpp[k] < len(factoryPostProcessors) && toany(factoryPostProcessors[PrepFpp[k]]) == PrepAt[k]), PrepFpp[k])
 //@ loop 1 invariant [collecting] Failed == old(Failed) && RawOK(f.postProcessorRegistrationDelegate) && ProcsOK(f.postProcessorRegistrationDelegate) && f.registeredComponents != nil && forall(k, int, implies(0 <= k && k < len(factoryPostProcessors), factoryPostProcessors[k] != nil), factoryPostProcessors[k]) && Joined == old(Joined) && Forks == old(Forks) && ScanRecorded == old(ScanRecorded) && ScanFailed == old(ScanFailed) && RanLen == old(RanLen) && RanAt == old(RanAt) && RanSrc == old(RanSrc) && Refreshed == old(Refreshed)
 
 //@ func (*defaultFactory).registerBeanPostProcessors
@@ -495,3 +532,5 @@ package factory
 //@ requires [given] f != nil && f.postProcessorRegistrationDelegate != nil && postProcessor != nil && RawOK(f.postProcessorRegistrationDelegate)
 //@ assigns f.postProcessorRegistrationDelegate.hasInstantiationAwareComponentPostProcessor, f.postProcessorRegistrationDelegate.hasDestructionAwareComponentPostProcessor, f.postProcessorRegistrationDelegate.rawComponentPostProcessors
 //@ ensures [registered] RawOK(f.postProcessorRegistrationDelegate) && len(f.postProcessorRegistrationDelegate.rawComponentPostProcessors) == len(old(f.postProcessorRegistrationDelegate.rawComponentPostProcessors)) + 1
+//@ ensures [registered-last] f.postProcessorRegistrationDelegate.rawComponentPostProcessors[len(f.postProcessorRegistrationDelegate.rawComponentPostProcessors) - 1] == postProcessor
+//@ ensures [earlier-kept] forall(k, int, implies(0 <= k && k < len(old(f.postProcessorRegistrationDelegate.rawComponentPostProcessors)), f.postProcessorRegistrationDelegate.rawComponentPostProcessors[k] == old(f.postProcessorRegistrationDelegate.rawComponentPostProcessors[k])))
